@@ -16,6 +16,11 @@
  *                    B = SIGEV_SIGNAL consumed synchronously: the signal is BLOCKED in the
  *                    submitting thread and collected with sigtimedwait,
  *                    wait for completion before the thread's next call;
+ *                    "~k" after the hosts: initialisation of the caller's struct gaicb outside the
+ *                    API fields ar_name/ar_service/ar_request: g = harness default (stale marker),
+ *                    z = zeroed, f = 0xff bytes, a = 0xa5 bytes, c = value copy of an in-flight
+ *                    request (_state == EAI_INPROGRESS), d = value copy of a completed request,
+ *                    e = the very objects of an earlier, completed batch of the thread resubmitted;
  *                    "+…" (GAI_NOWAIT + SIGEV_THREAD only): the callback itself submits a
  *                    follow-up GAI_NOWAIT batch — chained look-ups, the thread running the
  *                    callback is a submitting thread like any other; logged as thread 5)
@@ -159,6 +164,11 @@ struct Batch {
 	int t, seq, bid, n, mode, sev, waitnow;
 	int host[MAXN];
 	struct gaicb cb[MAXN];
+	struct gaicb *cbp;           /* the request objects in use: cb[], or an earlier batch's (resubmission) */
+	struct Batch *aliased_by;    /* a later batch resubmits this batch's request objects */
+	int init;                    /* how the caller's struct gaicb is initialised (see prep) */
+	int init_state[MAXN];
+	struct addrinfo *init_res[MAXN];
 	struct gaicb *list[MAXN];
 	struct sigevent sevs;
 	sem_t sem;
@@ -227,10 +237,14 @@ NOTSAN static void snap_of(struct Batch *b, char *out)
 {
 	int k;
 	for (k = 0; k < b->n; k++) {
-		int st = peek_state(&b->cb[k]);
-		if (st == STALE) out[k] = 'N';
-		else if (st == EAI_INPROGRESS) out[k] = 'P';
-		else if (st == oracle_rc[b->host[k]]) out[k] = 'D';
+		struct gaicb *g = &b->cbp[k];
+		int st = peek_state(g), in = b->init_state[k];
+		/* N = still what the caller put there, P = EAI_INPROGRESS, D = getaddrinfo's answer,
+		 * U = EAI_INPROGRESS but the caller's initial value was EAI_INPROGRESS too */
+		if (st == EAI_INPROGRESS) out[k] = in == EAI_INPROGRESS ? 'U' : 'P';
+		else if (st == oracle_rc[b->host[k]])
+			out[k] = (st == in && *(struct addrinfo *volatile *)&g->ar_result == b->init_res[k]) ? 'N' : 'D';
+		else if (st == in) out[k] = 'N';
 		else out[k] = 'X';
 	}
 	out[b->n] = 0;
@@ -411,8 +425,12 @@ static int find_item(struct addrinfo **res, int *bid, int *k)
 	int i;
 	if (p < lo || p >= hi) return 0;
 	b = &batches[0][0] + (p - lo) / sizeof(struct Batch);
-	for (i = 0; i < b->n && i < MAXN; i++)
-		if (res == &b->cb[i].ar_result) { *bid = b->bid; *k = i; return 1; }
+	for (i = 0; i < MAXN; i++)
+		if (res == &b->cb[i].ar_result) {
+			struct Batch *o = b->aliased_by ? b->aliased_by : b;
+			if (i >= o->n) return 0;
+			*bid = o->bid; *k = i; return 1;
+		}
 	return 0;
 }
 int __wrap_getaddrinfo(const char *node, const char *service, const struct addrinfo *hints, struct addrinfo **res)
@@ -423,7 +441,7 @@ int __wrap_getaddrinfo(const char *node, const char *service, const struct addri
 	find_item(res, &bid, &k);
 	if (bid >= 0) {
 		/* the arguments netdb.c passes on, against the request's own (all hint fields) */
-		struct gaicb *g = &bid_batch(bid)->cb[k];
+		struct gaicb *g = &bid_batch(bid)->cbp[k];
 		const struct addrinfo *rq = g->ar_request;
 		argsok = node == g->ar_name && service == g->ar_service && (!hints) == (!rq) &&
 			(!hints || (hints->ai_flags == rq->ai_flags && hints->ai_family == rq->ai_family &&
@@ -502,15 +520,51 @@ static pthread_attr_t notify_attr;
 static void prep(struct Batch *b)
 {
 	int k;
-	memset(b->cb, 0, sizeof b->cb);
+	b->cbp = b->cb;
+	if (b->init == 'e') {
+		/* resubmit the very objects of an earlier, completed batch of this thread */
+		int q, ok;
+		struct Batch *a = NULL;
+		for (q = 0; q < b->seq && !a; q++) {
+			struct Batch *c = &batches[b->t][q];
+			if (b->t >= CHAIN_T || !c->finals_done || c->sev == 'B' || c->aliased_by || c->cbp != c->cb || c->n < b->n) continue;
+			for (ok = 1, k = 0; k < b->n; k++)
+				if (c->cb[k]._state == oracle_rc[b->host[k]] && c->cb[k]._state != 0) ok = 0;
+			if (ok) a = c;
+		}
+		if (a) { a->aliased_by = b; b->cbp = a->cb; }
+		else b->init = 'd';
+	}
 	for (k = 0; k < b->n; k++) {
 		const struct Host *h = &hosts[b->host[k]];
-		b->cb[k].ar_name = h->name;
-		b->cb[k].ar_service = h->service;
-		b->cb[k].ar_request = h->family == NOHINTS ? NULL : &hints_tab[b->host[k]];
-		b->cb[k].ar_result = (struct addrinfo *)(uintptr_t)0x11;   /* poison: must be overwritten */
-		b->cb[k]._state = STALE;
-		b->list[k] = &b->cb[k];
+		struct gaicb *g = &b->cbp[k];
+		int rc = oracle_rc[b->host[k]];
+		switch (b->init) {
+		case 'z': memset(g, 0, sizeof *g); break;
+		case 'f': memset(g, 0xff, sizeof *g); break;
+		case 'a': memset(g, 0xa5, sizeof *g); break;
+		case 'c':       /* value copy of a request that is in flight */
+			memset(g, 0, sizeof *g);
+			g->ar_result = (struct addrinfo *)(uintptr_t)0x11;
+			g->_state = EAI_INPROGRESS;
+			break;
+		case 'd':       /* value copy of a completed request */
+			memset(g, 0, sizeof *g);
+			g->ar_result = (struct addrinfo *)(uintptr_t)0x21;
+			g->_state = rc != 0 ? 0 : ((rnd() & 1) ? 0 : EAI_NONAME);
+			break;
+		case 'e': break;        /* untouched */
+		default:
+			memset(g, 0, sizeof *g);
+			g->ar_result = (struct addrinfo *)(uintptr_t)0x11;   /* poison: must be overwritten */
+			g->_state = STALE;
+		}
+		g->ar_name = h->name;
+		g->ar_service = h->service;
+		g->ar_request = h->family == NOHINTS ? NULL : &hints_tab[b->host[k]];
+		b->init_state[k] = g->_state;
+		b->init_res[k] = g->ar_result;
+		b->list[k] = g;
 	}
 	memset(&b->sevs, 0, sizeof b->sevs);
 	if (b->sev == 'S' || b->sev == 'B') {
@@ -600,7 +654,7 @@ static void await(struct Batch *b)
 {
 	char last[MAXN + 2] = "", cur[MAXN + 2];
 	if (b->done_seen) return;
-	if (b->mode == 'W') { b->done_seen = 1; return; }
+	if (b->mode == 'W' && b->sev != 'B') { b->done_seen = 1; return; }
 #ifdef C20_TSAN
 	/* libtsan defers asynchronous signals and (gcc 12) occasionally never runs the handler:
 	 * under TSan the signal is still sent by netdb.c and logged (`kill`), but completion is
@@ -609,7 +663,7 @@ static void await(struct Batch *b)
 		while (!timed_out) {
 			if (sem_trywait(&b->sem) == 0) { b->done_seen = 1; return; }
 			snap_of(b, cur);
-			if (!strchr(cur, 'P') && !strchr(cur, 'N')) { b->done_seen = 1; return; }
+			if (!strchr(cur, 'P') && !strchr(cur, 'N') && !strchr(cur, 'U')) { b->done_seen = 1; return; }
 			if (now_s() > deadline) { ST(timed_out_, 1); return; }
 			usleep(rnd() % 60);
 		}
@@ -645,7 +699,7 @@ static void await(struct Batch *b)
 			logsnap(E_POLL, b, 0, 0);
 			strcpy(last, cur);
 		}
-		if (!strchr(cur, 'P') && !strchr(cur, 'N')) { b->done_seen = 1; return; }
+		if (!strchr(cur, 'P') && !strchr(cur, 'N') && !strchr(cur, 'U')) { b->done_seen = 1; return; }
 		if (now_s() > deadline) { ST(timed_out_, 1); return; }
 		if (rnd() % 4) sched_yield(); else usleep(rnd() % 60);
 	}
@@ -659,13 +713,13 @@ static void finals(struct Batch *b)
 	b->finals_done = 1;
 	char s[1024];
 	for (k = 0; k < b->n; k++) {
-		int rc = gai_error(&b->cb[k]);
+		int rc = gai_error(&b->cbp[k]);
 		int same = 0;
-		struct addrinfo *r = b->cb[k].ar_result;
+		struct addrinfo *r = b->cbp[k].ar_result;
 		if (rc == oracle_rc[b->host[k]]) {
 			if (rc != 0)
 				same = 1;   /* no result expected */
-			else if (r != (struct addrinfo *)(uintptr_t)0x11 && r) {
+			else if (r != b->init_res[k] && r) {
 				ai_str(r, s, sizeof s);
 				same = strcmp(s, oracle_str[b->host[k]]) == 0;
 			}
@@ -783,7 +837,8 @@ static int parse_scn(char *line)
 		size_t L = strlen(s), k;
 		const char *plus = strchr(s, '+');
 		const char *star = strchr(s, '*');
-		int rep = 1;
+		const char *til = strchr(s, '~');
+		int rep = 1, initk = 'g';
 		if (s[0] == 'w') {      /* w<t>=<k>: streaming window of thread t */
 			if (strlen(s) < 4 || s[2] != '=' || s[1] < '1' || s[1] > '0' + NSUB) return 0;
 			window[s[1] - '0'] = atoi(s + 3);
@@ -797,6 +852,11 @@ static int parse_scn(char *line)
 			L = (size_t)(star - s);
 		}
 		if (plus) L = (size_t)(plus - s);
+		if (til) {
+			if (!til[1] || !strchr("gzfacde", til[1]) || (size_t)(til - s) > L) return 0;
+			initk = til[1];
+			L = (size_t)(til - s);
+		}
 		if (L < 6 || s[4] != ':') return 0;
 		t = s[0] - '0';
 		if (t < 1 || t > NSUB) return 0;
@@ -808,7 +868,7 @@ static int parse_scn(char *line)
 		b = &batches[t][nbatch[t]];
 		memset(b, 0, sizeof *b);
 		b->t = t; b->seq = nbatch[t]; b->bid = t * BIDMUL + b->seq;
-		b->mode = s[1]; b->sev = s[2]; b->waitnow = s[3] - '0';
+		b->mode = s[1]; b->sev = s[2]; b->waitnow = s[3] - '0'; b->init = initk;
 		b->n = (int)(L - 5);
 		for (k = 0; k < L - 5; k++) {
 			int v = host_of_char(s[5 + k]);
